@@ -30,6 +30,11 @@ pub struct StreamOut {
 /// Feed at least `n_in` input frames (channel 0 observed), following `schedule` cyclically
 /// (empty schedule: constant chunk size).
 pub fn drive(cfg: &Cfg, schedule: &Schedule, n_in: usize) -> Result<StreamOut, String> {
+    drive_prefixed(cfg, &[], schedule, n_in)
+}
+
+/// As `drive`, after the operations of `prefix` (processing calls contribute to the stream).
+pub fn drive_prefixed(cfg: &Cfg, prefix: &[Op], schedule: &Schedule, n_in: usize) -> Result<StreamOut, String> {
     let mut r = Runner::<f64>::new(cfg, Signal::Noise)?;
     r.keep_out = true;
     let mut so = StreamOut {
@@ -39,6 +44,24 @@ pub fn drive(cfg: &Cfg, schedule: &Schedule, n_in: usize) -> Result<StreamOut, S
         error: None,
         history: Vec::new(),
     };
+    for op in prefix {
+        let o = r.apply(*op);
+        so.history.push(*op);
+        match o.res {
+            Res::Ok(i, n) => {
+                so.calls += 1;
+                so.consumed += i;
+                if let Some(ch) = o.out.first() {
+                    so.out.extend_from_slice(&ch[..n.min(ch.len())]);
+                }
+            }
+            Res::Unit => {}
+            other => {
+                so.error = Some(format!("{} -> {}", op.text(), other.text()));
+                return Ok(so);
+            }
+        }
+    }
     let mut slot = 0usize;
     'outer: loop {
         let reps = if schedule.is_empty() {
@@ -216,10 +239,15 @@ fn nearest_tie(cfg: &Cfg, j: usize) -> bool {
 }
 
 fn c05_compare(acc: &mut C05Acc, cfg: &Cfg, sched: &Schedule, reference: &[f64], tol: f64, n_in: usize, journal: Option<&JournalFile>) -> Result<(), String> {
+    c05_compare_p(acc, cfg, &[], sched, reference, tol, n_in, journal)
+}
+
+#[allow(clippy::too_many_arguments)]
+fn c05_compare_p(acc: &mut C05Acc, cfg: &Cfg, prefix: &[Op], sched: &Schedule, reference: &[f64], tol: f64, n_in: usize, journal: Option<&JournalFile>) -> Result<(), String> {
     if let Some(j) = journal {
-        j.write(&cfg.to_json(), &format!("schedule {:?}", sched));
+        j.write(&cfg.to_json(), &format!("prefix {} schedule {:?}", history_text(prefix), sched));
     }
-    let s = drive(cfg, sched, n_in)?;
+    let s = drive_prefixed(cfg, prefix, sched, n_in)?;
     acc.evals += 1;
     let hist = if s.history.len() > 40 { history_text(&s.history[..40]) + " ..." } else { history_text(&s.history) };
     if let Some(e) = &s.error {
@@ -230,7 +258,7 @@ fn c05_compare(acc: &mut C05Acc, cfg: &Cfg, sched: &Schedule, reference: &[f64],
         }
         return Ok(());
     }
-    let (d, at, n) = max_abs_diff(&s.out, reference, &|j| nearest_tie(cfg, j));
+    let (d, at, n) = max_abs_diff(&s.out, reference, &|j| prefix.is_empty() && nearest_tie(cfg, j));
     if n > 64 {
         acc.nontrivial += 1;
     }
@@ -287,6 +315,26 @@ impl Check for C05 {
                     let max = 64;
                     for s in schedules(tier, l, max) {
                         c05_compare(&mut acc, &mk(kind, max), &s, &reference.out, tol, n_in.min(900), journal)?;
+                    }
+                    // the same schedules after a common prefix that ends with a completed ramp
+                    // (the ratio schedule is identical in all runs, only the chunking after the
+                    // ramped call differs); not for Nearest (ties move with the ratio)
+                    if interp != Interp::Nearest {
+                        let mut c = mk(kind, max);
+                        c.max_rel = 2.0;
+                        for prefix in [vec![Op::P, Op::P, Op::R(0.8, true), Op::P], vec![Op::P, Op::R(1.25, true), Op::P]] {
+                            let r2 = drive_prefixed(&c, &prefix, &vec![], n_in.min(900))?;
+                            if let Some(e) = r2.error {
+                                return Err(format!("reference stream with prefix failed: {}", e));
+                            }
+                            for (k, s) in schedules(tier, l, max).into_iter().enumerate() {
+                                // every fourth schedule (the full product is run without the prefix)
+                                if k % 4 != 0 {
+                                    continue;
+                                }
+                                c05_compare_p(&mut acc, &c, &prefix, &s, &r2.out, tol, n_in.min(900), journal)?;
+                            }
+                        }
                     }
                 }
             }
@@ -360,7 +408,7 @@ impl Check for C05 {
         crate::frame::replay_by_item(self, replay)
     }
     fn rule(&self, _tier: Tier) -> String {
-        "per algorithm family and ratio: one reference stream (fixed-input, chunk 257) and every run of {FixedIn, FixedOut} x every chunk size of {1,2,3,5,8,13,L-1,L,L+1,2L+1,64,100,257} x (sinc) every 3-slot set_chunk_size schedule over the (size, calls) menu (calls = 0 included: a size set and replaced before use), on a fixed pseudo-random signal; FFT: every (type, chunk<=256, sub_chunks<=4) grouped by resolved block size, bit-identical within a group. Non-trivial = compared prefix longer than 64 frames".into()
+        "per algorithm family and ratio: one reference stream (fixed-input, chunk 257) and every run of {FixedIn, FixedOut} x every chunk size of {1,2,3,5,8,13,L-1,L,L+1,2L+1,64,100,257} x (sinc) every 3-slot set_chunk_size schedule over the (size, calls) menu (calls = 0 included: a size set and replaced before use), every fourth schedule also after a common prefix that ends with a completed ramp, on a fixed pseudo-random signal; FFT: every (type, chunk<=256, sub_chunks<=4) grouped by resolved block size, bit-identical within a group. Non-trivial = compared prefix longer than 64 frames".into()
     }
     fn assumptions(&self) -> Vec<String> {
         vec![
